@@ -143,10 +143,19 @@ CLAIMED = {
              "nodes untouched), and - for paths whose attribute equalities are consistent after prefix resolution, the "
              "property's 'non-contradictory predicates' - the same expression afterwards selects exactly the returned node and "
              "a second call is a no-op (c15_created_is_selected_noempty_partial, c15_idempotent_noempty_partial: the only extra "
-             "hypothesis is that no prefix is the empty string, which the parser never produces; counterexamples kept). Tie to "
+             "hypothesis is that no prefix is the empty string, which the parser never produces; counterexamples kept). What is "
+             "added is proved to be the minimal missing branch (c15_added_branch and its projections c15_added_is_one_chain, "
+             "c15_added_count_minimal, c15_added_names_and_attributes, c15_added_position): the new nodes are exactly one "
+             "chain of tag nodes with the next identities, inserted below the node d that the longest matching prefix of the "
+             "path selects in the old tree (the next step selects nothing below d), one node per missing step, each with the "
+             "step's local name, the namespace its prefix resolves to and exactly the attributes derived from its predicates, "
+             "the last one is the returned node; the chain is placed behind d's last tag or text child (a trailing comment/PI "
+             "stays behind it: counterexample to 'last child' kept). Tie to "
              "code: the real call on generated trees x locatable paths (relative/absolute, prefixed/unprefixed, 0-4 predicates, "
              "with/without/empty/prefix-only namespaces) == compiled model (tree with identities, returned node, error class); "
-             "property oracle on the implementation (re-query, second call, old part unchanged, rejected calls change nothing).",
+             "plus a planted stream (one complete match beside elements that match only a leading part of the path); property "
+             "oracle on the implementation (re-query, second call, old part unchanged, rejected calls change nothing, exactly "
+             "one match before the call -> that node is returned).",
         note=TB + "Calls run under the library's default ambient filters. Four findings fixed in /repo (0503582, 0e015a4, "
              "7ceef81, d101191); none open.",
         technique="Lean 4 theorems (loop invariant of _create_by_xpath over the evaluator model) + differential correspondence",
